@@ -213,6 +213,13 @@ class Seq:
     def Count(self):
         return len(self)
 
+    def fold(self, init, f):
+        """a backend method (not an operator the simplifier knows) that takes a two-parameter lambda"""
+        acc = init
+        for x in self:
+            acc = f(acc, x)
+        return acc
+
 
 class Rec:
     """Opaque backend record: integer attributes, sub-collections, a method."""
